@@ -137,6 +137,25 @@ def rule_status(R):
         t = peel(b.local_term(0))
         ok = is_call(t, "PartialEq::eq", "eq") and any(is_call(x, "status") for x in walk(t)) and any(
             x[0] == "agg" and x[2] == STATUS and x[3] == verdict for x in walk(t))
+        if not ok:
+            # `matches!(self.status(op), OpStatus::<verdict>)`: a switch on the verdict whose <verdict> edge alone yields true
+            for sb in b.switches:
+                if sb not in b.reachable:
+                    continue
+                si = b.switch_info(sb)
+                if si["enum"] == STATUS and any(is_call(x, "status") for x in walk(si["subject"])):
+                    res = {}
+                    labs = dict(si["edges"])
+                    if si.get("otherwise") is not None and si["otherwise"] not in labs.values():
+                        labs["*"] = si["otherwise"]
+                    for lab, tgt in labs.items():
+                        vs = set()
+                        for lf in paths.explore(b, tgt, lambda t_: False, lambda b_, x_: False, max_paths=50):
+                            if lf["kind"] == "return":
+                                v_ = paths.value_on_path(b, [sb] + lf["path"], 0)
+                                vs.add(peel(v_)[2] if v_ is not None and peel(v_)[0] == "const" else None)
+                        res[lab] = vs
+                    ok = res.get(verdict) == {1} and all(v == {0} for k, v in res.items() if k != verdict) and len(res) >= 2
         R.ob("status/%s" % name, ok, "Session::%s is status(op) == %s" % (name, verdict), where=b.span)
         # the handle's query of the same name answers with the session's: same predicate, same operation, not negated
         from .roles import CONN
@@ -344,7 +363,9 @@ def rule_handle(R):
             R.ob("handle/%s/kind" % op, ks == sorted(KIND_OF[op]), "the handle returned by %s has kind %s (found %s)" % (op, KIND_OF[op], ks),
                  where=c.span)
             g = peel(code.operand_term(c.args[2]))
-            R.ob("handle/%s/generation" % op, is_call(g, "generation") and chain(g[3][0])[1][-1:] == ["data"],
+            okg_ = (is_call(g, "generation") and chain(g[3][0])[1][-1:] == ["data"]) or \
+                (g[0] == "field" and g[2] == "generation" and g[3] == roles.SDATA and chain(g)[1][-2:] == ["data", "generation"])
+            R.ob("handle/%s/generation" % op, okg_,
                  "the handle records the session generation current at creation", where=c.span)
             # created only after the enqueue succeeded
             ret = ops.first(P.retains, "retain", op)
@@ -361,9 +382,13 @@ def rule_handle(R):
     R.ob("handle/ctor", fl.get("kind") == ("param", "kind") and fl.get("packet_id") == ("param", "packet_id") and fl.get("generation") == ("param", "generation"),
          "Op::new stores kind, identifier and generation unchanged", where=on[0].span)
     # generation: accessor returns the field
-    g = roles.method(f, SDATA, "generation")
-    R.ob("handle/generation-accessor", chain(g.local_term(0)) == (("param", "self"), ["generation"]),
-         "SessionData::generation returns the counter", where=g.span)
+    try:
+        g = roles.method(f, SDATA, "generation")
+    except AnchorLost:
+        g = None       # the counter is read directly where the handle is built (checked per operation above)
+    if g is not None:
+        R.ob("handle/generation-accessor", chain(g.local_term(0)) == (("param", "self"), ["generation"]),
+             "SessionData::generation returns the counter", where=g.span)
 
 
 ACK_ARMS = {"PubAck": "retained_removal", "PubRec": "retained_removal", "SubAck": "retained_removal",
@@ -416,6 +441,8 @@ def clause_remove_then_report(R, prefix, arms=None):
                  "the %s arm examines every reason code of the list in a loop" % arm, where=hb.line(loops[0]), nontrivial=False)
             continue
         for ts in tstarts:
+            if hb.must_pass([entry], [ts], via_blocks=sorted(qbbs))[0]:
+                continue       # a later re-test of the "removed" flag: the reason code was examined on the way here
             for lf in paths.explore(hb, ts, lambda x: False, lambda b, bb: bb in qbbs):
                 if lf["kind"] == "return" and not lf["marked"]:
                     okc = False
